@@ -125,7 +125,8 @@ def check_spec(case, ctx):
 POOL = ['a', 'b', 'a b', 'a>b', '.c', '#i', '#aabbcc', '#abc', 'a:hover', 'li:nth-child(2n+1)', 'a[href]', ':not(.x)', 'p::first-line', '*']
 SPELL = {'a b': ['a   b', 'a\n\tb'], 'a>b': ['a > b', 'a>b'], 'a:hover': ['a:HOVER'], ':not(.x)': [':NOT( .x )'],
          'li:nth-child(2n+1)': ['li:NTH-CHILD(2n+1)'], 'a[href]': ['a[ href ]']}
-INVALID = ['a,,b', '1a', 'a:::b', '', 'a[', 'a >', '.#x', 'a b,', '@x', 'a{', ':not(a b)', 'a:not()']
+INVALID = ['a,,b', '1a', 'a:::b', '', 'a[', 'a >', '.#x', 'a b,', '@x', 'a{', ':not(a b)', 'a:not()',
+           ':lang(g(en)', 'a:nth-child(n(2)', '::a(b(c)', ':not(o(dd)', '*| b', '*|\tb', '[*| b]', ':not(*| b)', 'zz|/**/b', '| b']
 
 lop = st.one_of(
     st.tuples(st.just('append'), st.integers(0, len(POOL) - 1), st.integers(0, 2)),
@@ -453,3 +454,8 @@ def check_ext(case, ctx):
 
 
 SUBS.append(Sub('ext', check_ext, enumerate=ext_cases, shards_quick=2, shards_thorough=2))
+
+
+from vlib.reported import reported_sub  # noqa: E402
+
+SUBS.append(reported_sub('C16'))
